@@ -3,3 +3,4 @@ import Generated.Constants
 import Generated.Registry
 import Generated.KnnDecision
 import Generated.Seeded
+import Generated.DistSrc
